@@ -104,6 +104,7 @@ class Expect:
         self.ledger = list(ledger)
         self.method = method
         self.unordered = unordered     # bundle elements may come in any order
+        self.optional = False          # the packets may also be absent altogether
 
     def messages(self):
         out = []
@@ -318,6 +319,29 @@ def _node(op, env):
     if m == 'dump_tree':
         return Expect([msg('/g_dumpTree', nid, int(bool(op['controls'])))],
                       method='Group.dump_tree')
+    if m == 'seti':
+        # Synth.seti(name, index, value, ...): sets part of an arrayed control.
+        # Only the controls of that array may be addressed: triples with an
+        # unknown name or an index outside 0 .. size-1 are skipped, list
+        # values are truncated at the end of the array.
+        layout = op['layout']
+        pos = {}
+        k = 0
+        for pname, chans in layout:
+            pos[pname] = (k, chans)
+            k += chans
+        out = []
+        for name, off, val in _pairs(op['args'], 3):
+            if name not in pos:
+                continue
+            idx, chans = pos[name]
+            if not 0 <= off < chans:
+                continue
+            out.append(idx + off)
+            out.append(nums(val[:chans - off]) if isinstance(val, list) else num(val))
+        e = Expect([msg('/n_set', nid, *out)], method='Synth.seti')
+        e.optional = not out          # nothing to set: an empty /n_set or nothing
+        return e
     if m == 'get':
         return Expect([msg('/s_get', nid, op['index'])], method='Synth.get')
     if m == 'getn':
